@@ -1,7 +1,7 @@
 (* C19 — property theorems only: object writes through the temp-then-rename protocol are all-or-nothing, for every set of
    writers, every fault placement (body error at any frame, request dropped at any micro-step, checksum mismatch) and every
    schedule. *)
-From S3V Require Import lib.Bytes model.Store model.FsWrite proofs.StoreProofs proofs.FsWriteProofs.
+From S3V Require Import lib.Bytes model.Store model.FsWrite model.FsImpl proofs.StoreProofs proofs.FsWriteProofs proofs.FsRefine.
 Open Scope N_scope.
 
 (* at every moment of every execution the object holds the previous content or the complete content of a writer that
@@ -48,6 +48,22 @@ Theorem C19_rejected_write_leaves_store : forall mp s bk k d m sums fault,
   fst (step mp s (Put bk k d m sums fault)) = s /\ is_err (snd (step mp s (Put bk k d m sums fault))) = true.
 Proof. exact rejected_write_leaves_store. Qed.
 Print Assumptions C19_rejected_write_leaves_store.
+
+(* at the level of the directory tree (model/FsImpl.v, the backend operation by operation; compared with the code on every C18 run
+   entry by entry): an operation that is refused - for whatever reason, on any tree, with any key - leaves every directory, object
+   file, metadata / internal-info / upload / part file exactly as it was; temp files do not exist between operations *)
+Theorem C19_refused_operation_leaves_the_tree : forall mp t o, is_err (snd (fs_step mp t o)) = true -> fst (fs_step mp t o) = t.
+Proof. exact fs_refused_changes_nothing. Qed.
+Print Assumptions C19_refused_operation_leaves_the_tree.
+Example C19_refused_examples :
+  let t := fst (fs_run 8 empty_fs [CreateBucket (b "bkt"); Put (b "bkt") (b "k") (b "old") (Some [(b "a", b "1")]) [] false;
+                                   MpuCreate 0 None (b "bkt") (b "k") None; MpuPart 0 None 1 (b "abc") false]) in
+  map (fun o => (snd (fs_step 8 t o), diff_of t (fst (fs_step 8 t o))))
+      [Put (b "bkt") (b "k") (b "new") None [(3, b "bad")] false; Put (b "bkt") (b "k") (b "new") None [] true;
+       MpuComplete 0 None (b "bkt") (b "k") [1; 2]%Z; MpuPart 0 None 2 (b "x") true]
+  = [(b "err:BadDigest", []); (b "err:InternalError", []); (b "err:EntityTooSmall", []); (b "err:InternalError", [])].
+Proof. vm_compute. reflexivity. Qed.
+Print Assumptions C19_refused_examples.
 
 (* non-vacuity: three writers (one with a failing body, one with a wrong checksum) under an interleaved schedule *)
 Example C19_example :
